@@ -35,7 +35,7 @@ func (a Args) Big(k string) *big.Int {
 	return n
 }
 func (a Args) SdkInt(k string) sdkmath.Int { return sdkmath.NewIntFromBigInt(a.Big(k)) }
-func (a Args) Bool(k string) bool           { return a[k] == "1" || a[k] == "true" }
+func (a Args) Bool(k string) bool          { return a[k] == "1" || a[k] == "true" }
 
 func (a Args) String() string {
 	var ks []string
